@@ -5,10 +5,7 @@ from ..core import AnalysisError, norm, walk_no_nested
 
 META = {
     'design_ref': 'DESIGN.md §3 C20',
-    'technique': 'abstract interpretation of every DB-constructing method over a relation algebra (R, inverse, key-restriction) with '
-                 'dict/set ownership tags (same dict, shallow copy, fresh sets): paired-assignment obligation rdb = inverse(db) and an '
-                 'ownership rule for set objects that insert() mutates in place; kind (refinement-type) inference PKG/TAG/CHAR/Set/Dict for '
-                 'the stores; loop-shape rules for reverse(), insert() and the reader; index-role table for the query methods',
+    'technique': 'abstract interpretation (sa.heap) of every collection-returning method, reverse(), insert() histories, the reader and the queries on a generic finite relation with a reference relation as oracle (content, rdb = inverse(db), identity of set objects for ownership); in addition interpretation over a relation algebra (R, inverse, restriction) which decides the paired-assignment obligation for all relations where the method is in its vocabulary',
     'level_text': 'Static decision for every derivation method: assuming the receiver\'s indexes are inverse, the returned collection\'s '
                   'indexes are syntactically inverse relation expressions; no returned collection shares a set that a later insert() on it '
                   'or on its parent mutates in place unless both dictionaries are shared; all stores type-check under '
@@ -307,6 +304,9 @@ def r6_generic_relation(rep, src):
             res = it.call(H.Closure(f.node, {}, me, f.cls), args)
         except H.Raised as x:
             rep.fail('C20.R1', f.site, 'result indexes are inverse', 'raises %s (line %d) on the generic relation' % (x.exc, x.lineno), where=f.where)
+            continue
+        except AnalysisError as e_:
+            rep.error('C20.R1', '%s: %s' % (f.site, e_))
             continue
         if not (isinstance(res, H.Ref) and heap.objs[res.name]['__class__'] == 'DB'):
             continue
